@@ -1,6 +1,8 @@
 package nomsim
 
 import (
+	"bytes"
+	"errors"
 	"fmt"
 	"math/big"
 	"reflect"
@@ -396,8 +398,15 @@ func (gn *Gen) Call(n *simnode.Node, c *Contract, method string) (*nom.AccountBl
 	return gn.submitCall(n, key, from, c.Addr, z, amt, data)
 }
 
+var revokePillar1 = definition.ABIPillars.PackMethodPanic(definition.RevokeMethodName, g.Pillar1Name)
+var errKeepOnePillar = errors.New("harness: the last producing pillar is not revoked")
+
 func (gn *Gen) submitCall(n *simnode.Node, key string, from, to types.Address, z types.ZenonTokenStandard, amt *big.Int, data []byte) (*nom.AccountBlock, string, error) {
 	gn.Tried[key]++
+	if to == types.PillarContract && bytes.Equal(data, revokePillar1) {
+		// one producing pillar always stays (see the revoke-pillar flow)
+		return nil, key, errKeepOnePillar
+	}
 	b, err := gn.W.Send(n, from, to, z, amt, data)
 	if err == nil {
 		gn.Accepted[key]++
